@@ -5,6 +5,8 @@ C16 driver: both parser models on arbitrary text.
 
     parse1 <text>                    → answer of the univariate parser model  (as `C01 parse`)
     parse2 <text>                    → answer of the multivariate parser model (as `C02 parse`)
+    enumx <parser> <maxlen> <alphabet> <prefix>  → the same over the alphabet given in the request
+    o1 / o2 / long …                 → `-` (oracle-only requests of the harness)
     enum <parser> <maxlen> <prefix>  → `<strings> <accepted> <fnv64>`: all strings over the 15-symbol
                                        alphabet that start with `prefix` and have length ≤ maxlen, in
                                        lexicographic-by-extension order, each parsed; the digest is
@@ -60,14 +62,14 @@ structure Acc where
 
 /-- visit `s`, then every extension of `s` by one alphabet symbol, depth first, while
 `length ≤ maxlen` (`budget` = remaining extensions) -/
-def enumFrom (answer : List Char → String) : Nat → List Char → Acc → Acc
+def enumFrom (alpha : List Char) (answer : List Char → String) : Nat → List Char → Acc → Acc
   | budget, s, acc =>
     let a := answer s
     let acc := { acc with n := acc.n + 1, ok := acc.ok + (if a.startsWith "ok" then 1 else 0),
                           h := fnvStr acc.h a }
     match budget with
     | 0 => acc
-    | b + 1 => alphabet.foldl (fun acc c => enumFrom answer b (s ++ [c]) acc) acc
+    | b + 1 => alpha.foldl (fun acc c => enumFrom alpha answer b (s ++ [c]) acc) acc
 
 def handle (line : String) : String :=
   let p : P String := do
@@ -78,8 +80,19 @@ def handle (line : String) : String :=
     | "enum" => do
       let parser ← nat; let maxlen ← nat; let pre ← chars
       let ans := if parser = 1 then answer1 fmtNumF else answer2 fmtNumF
-      let acc := enumFrom ans (maxlen - pre.length) pre {}
+      let acc := enumFrom alphabet ans (maxlen - pre.length) pre {}
       return s!"{acc.n} {acc.ok} {acc.h.toNat}"
+    | "enumx" => do
+      -- the same enumeration over an alphabet given in the request
+      let parser ← nat; let maxlen ← nat; let alpha ← chars; let pre ← chars
+      let ans := if parser = 1 then answer1 fmtNumF else answer2 fmtNumF
+      let acc := enumFrom alpha ans (maxlen - pre.length) pre {}
+      return s!"{acc.n} {acc.ok} {acc.h.toNat}"
+    -- requests judged by the harness oracle alone (characters outside the model's class table; texts of
+    -- 10^5..10^6 characters): the answer is not compared
+    | "o1" => do let _ ← chars; return "-"
+    | "o2" => do let _ ← chars; return "-"
+    | "long" => do let _ ← nat; let _ ← nat; let _ ← nat; return "-"
     | _ => fail
   match run p ((line.splitOn " | ").headD line) with
   | some s => s
